@@ -207,14 +207,14 @@ struct RefSem {
     }
 };
 
-enum EvKind { E_TRIG, E_ACK, E_ROUTE, E_IE, E_IM, E_IMV, E_IC, E_CPC, E_STEP, E_RUN, E_WORD, E_TIMER, E_VEC };
+enum EvKind { E_TRIG, E_ACK, E_ROUTE, E_IE, E_IM, E_IMV, E_IC, E_CPC, E_STEP, E_RUN, E_WORD, E_TIMER, E_VEC, E_REROUTE_TRIG };
 struct Event {
     int kind;
     int a;   // line / index
     u16 val; // bits / value
 };
 inline std::string Show(const Event& e) {
-    static const char* n[] = {"trigger", "acknowledge", "route", "ie", "im", "imv", "ic", "cpc", "step", "run", "write-word(0 st0,1 st2,2 mod3,3 stt2,4 icr)", "arm-timer0", "program-vector(irq index, bit0 second address, bit1 context flag inverted)"};
+    static const char* n[] = {"trigger", "acknowledge", "route", "ie", "im", "imv", "ic", "cpc", "step", "run", "write-word(0 st0,1 st2,2 mod3,3 stt2,4 icr)", "arm-timer0", "program-vector(irq index, bit0 second address, bit1 context flag inverted)", "reroute-then-trigger(line | irq<<4)"};
     return Fmt("%s(%d,%04X)", n[e.kind], e.a, e.val);
 }
 
@@ -340,6 +340,10 @@ struct Engine {
         case E_TRIG: t.MMIOWrite(0x204, e.val); break;
         case E_ACK: t.MMIOWrite(0x202, e.val); break;
         case E_ROUTE: t.MMIOWrite(e.a < 3 ? 0x206 + 2 * e.a : 0x20C, e.val); break;
+        case E_REROUTE_TRIG: // one destination rewritten and an IRQ raised with no state restore in between (a = line | irq << 4)
+            t.MMIOWrite((e.a & 15) < 3 ? 0x206 + 2 * (e.a & 15) : 0x20C, e.val);
+            t.MMIOWrite(0x204, (u16)(1u << (e.a >> 4)));
+            break;
         case E_IE: r.ie = e.val; break;
         case E_IM: r.im[e.a] = e.val; break;
         case E_IMV: r.imv = e.val; break;
@@ -373,6 +377,10 @@ struct Engine {
         case E_TRIG: sem.Trigger(x, e.val); break;
         case E_ACK: x.request &= ~e.val; break;
         case E_ROUTE: (e.a < 3 ? x.en[e.a] : x.ven) = e.val; break;
+        case E_REROUTE_TRIG:
+            ((e.a & 15) < 3 ? x.en[e.a & 15] : x.ven) = e.val;
+            sem.Trigger(x, (u16)(1u << (e.a >> 4)));
+            break;
         case E_IE: x.ie = (u8)e.val; break;
         case E_IM: x.im[e.a] = (u8)e.val; break;
         case E_IMV: x.imv = (u8)e.val; break;
@@ -431,7 +439,7 @@ struct Engine {
             what = "context";
         else
             what = "other";
-        static const char* n[] = {"trigger", "acknowledge", "route", "ie", "im", "imv", "ic", "cpc", "step", "run", "write-word(0 st0,1 st2,2 mod3,3 stt2,4 icr)", "arm-timer0", "program-vector(irq index, bit0 second address, bit1 context flag inverted)"};
+        static const char* n[] = {"trigger", "acknowledge", "route", "ie", "im", "imv", "ic", "cpc", "step", "run", "write-word(0 st0,1 st2,2 mod3,3 stt2,4 icr)", "arm-timer0", "program-vector(irq index, bit0 second address, bit1 context flag inverted)", "reroute-then-trigger(line | irq<<4)"};
         int pend = before.ip[0] + before.ip[1] + before.ip[2] + before.ipv + before.lat[0] + before.lat[1] + before.lat[2] + before.latv;
         return Fmt("%s:%s:ie=%u,rep=%u,pending=%d", n[e.kind], what.c_str(), before.ie, before.rep, pend > 2 ? 2 : pend);
     }
@@ -758,6 +766,26 @@ inline void Run(const Args& args, Result& res) {
                         eng.Explore(init, [&](const Model&) { return dyn; }, 100000, 3000000ull, "", f);
                         fix = fix && f;
                         ++blk.counters[1];
+                        // routing histories: an IRQ routed to two destinations, then removed from one of them (and the reverse order of
+                        // adding): the remaining destination must still receive it. One destination is rewritten after the prefix.
+                        for (int irq = 0; irq < 2; ++irq) {
+                            u16 bit = (u16)(1u << su.irq[irq]);
+                            int first = -1, count = 0;
+                            u64 cc = cfg;
+                            u16 first_set = 0;
+                            for (int line = 0; line < 4; ++line, cc >>= 2)
+                                if (subs[cc & 3] & bit) {
+                                    if (first < 0)
+                                        first = line, first_set = subs[cc & 3];
+                                    ++count;
+                                }
+                            if (count < 2)
+                                continue;
+                            std::vector<Event> dyn2 = dyn;
+                            dyn2.push_back({E_REROUTE_TRIG, first | (su.irq[irq] << 4), (u16)(first_set & ~bit)});
+                            eng.Explore(init, [&](const Model&) { return dyn2; }, 3, 3000000ull, "", f);
+                            ++blk.counters[3];
+                        }
                     }
                 }
                 blk.evaluations = local.evaluations;
